@@ -99,6 +99,16 @@ Definition run_rtv (args : list tok) : list byte :=
       join [S_ "OK"; S_ "MEM"; show_bool (crc_valid b'); S_ "WIRE"; show_res show_bool (rmap crc_valid (from_cbor bs))]
   | _ => bad_case
   end.
+(* SERDE <bundle>: to_cbor (CRC values calculated), then the bytes of serde's Serialize for Bundle (definite-length outer array) and what
+   the decoder makes of them *)
+Definition run_serde (args : list tok) : list byte :=
+  match parse_bundle args with
+  | Some (b, []) =>
+      let b' := snd (to_cbor b) in
+      let bs := bundle_bytes_serde b' in
+      join [S_ "OK"; show_bytes bs; S_ "DECODED"; show_res show_bundle (from_cbor bs)]
+  | _ => bad_case
+  end.
 (* SPEC <bundle>: the RFC 9171 specification encoder (compared with the implementation's to_cbor) *)
 Definition run_spec (args : list tok) : list byte :=
   match parse_bundle args with
@@ -162,6 +172,7 @@ Definition run_cmd (m : ovf_mode) (cmd : tok) (args : list tok) : list byte :=
   else if tok_is cmd "RT" then run_rt args
   else if tok_is cmd "RTV" then run_rtv args
   else if tok_is cmd "RTBIG" then S_ "NA"       (* sizes beyond what the model evaluates in reasonable time: implementation + reference encoder only *)
+  else if tok_is cmd "SERDE" then run_serde args
   else if tok_is cmd "SPEC" then run_spec args
   else if tok_is cmd "SPECX" then S_ "NA"
   else if tok_is cmd "DECRT" then run_decrt args
